@@ -7,7 +7,6 @@ From Rodbus Require Import Base.Outcome Base.Frame Gen.Consts Gen.RtuLengths Mod
   Spec.Framing Proofs.BufferProofs Proofs.ReaderGeneric Proofs.MbapProofs Proofs.CrcProofs.
 Import ListNotations.
 
-Definition bytes (l : list N) : Prop := Forall (fun x => (x < 256)%N) l.
 Lemma bytes_nil : bytes []. Proof. constructor. Qed.
 Lemma bytes_app a c : bytes a -> bytes c -> bytes (a ++ c). Proof. intros; now apply Forall_app. Qed.
 Lemma bytes_firstn k a : bytes a -> bytes (firstn k a).
